@@ -100,6 +100,33 @@ def game_cases(draw, max_inner=10):
 
 
 @st.composite
+def twin_swap_cases(draw):
+    """A game with a Player 1 state and a Player 2 state that have the same successor list; the transformation
+    swaps exactly those two states and reorders their common predecessor's transitions, so that - when the
+    predecessor is probabilistic and splits its mass evenly between them - the transformed description has
+    character-identical transition lists and differs from the original only in `players` / `rewards`."""
+    tw = draw(games.twin_games(min_inner=2, max_inner=8, dyadic=True))
+    g = tw["game"]
+    n = len(g["players"])
+    twin = n - 1
+    same = [s for s in range(n - 1) if g["transition_list"][s] == g["transition_list"][twin]
+            and g["players"][s] != g["players"][twin] and g["players"][s] != PR]
+    pi = list(range(n))
+    orders = [list(range(len(l))) for l in g["transition_list"]]
+    if same and twin != 0 and same[0] != 0:
+        a = same[0]
+        pi[a], pi[twin] = twin, a
+        for s, lst in enumerate(g["transition_list"]):
+            ia = [k for k, (_, t_) in enumerate(lst) if t_ == a]
+            it = [k for k, (_, t_) in enumerate(lst) if t_ == twin]
+            if len(ia) == 1 and len(it) == 1:
+                o = orders[s]
+                o[ia[0]], o[it[0]] = o[it[0]], o[ia[0]]
+    t = dict(pi=pi, orders=orders, rho={}, forder=list(range(len(g["final_states"]))), which="twin_swap")
+    return dict(kind="game", game=g, t=t, prune=games.coin(draw))
+
+
+@st.composite
 def board_cases(draw, max_len=3, max_wid=3):
     b = draw(boards.boards(max_len=max_len, max_wid=max_wid))
     return dict(kind="board", board=b, variant=draw(st.sampled_from("abc")), tkey=draw(st.integers(0, 10 ** 6)),
@@ -139,6 +166,8 @@ def phases(tier):
                   note="corridors of 200-1030 states: a renumbering changes how many sweeps a value needs to arrive"),
             Phase("medium-size-games", enum=medium_phase(tier), note="stopping games of 20-300 states, no oracle needed"),
             Phase("stopping-games", strategy=lambda: game_cases(10 if tier == "quick" else 12), examples=(900, 40000)),
+            Phase("twin-swaps", strategy=twin_swap_cases, examples=(250, 10000),
+                  note="swap a Player 1 state with a Player 2 state that has the same successor list"),
             Phase("boards", strategy=lambda: board_cases(3, 3) if tier == "quick" else board_cases(4, 4),
                   examples=(50, 1200)),
             Phase("big-board", enum=big_board(tier))]
@@ -217,6 +246,8 @@ def check_case(case):
     pi, rho = t["pi"], t["rho"]
     tgame = apply_transform(game, pi, t["orders"], rho, t["forder"])
     changed = tgame != game
+    if changed and tgame["transition_list"] == game["transition_list"]:
+        v.cls("identical_transition_lists_different_owners")
     if small:
         facts = GameFacts(game)
         try:
